@@ -223,6 +223,7 @@ class ABCInterfaceClass(InterfaceClass):
         # Eliminate the leading *self*, which is implied in
         # an interface, but explicit in an ABC.
         method.positional = method.positional[1:]
+        method.required = method.required[1:]
         return method
 
     def __register_classes(self, conformers=None, ignored_classes=None):
